@@ -23,9 +23,9 @@
 
 enum {
     C_FE_PROG, C_FE_NT, C_FE_MAG_GT1, C_FE_MAG_GE16, C_FE_RAW, C_FE_BOUNDS, C_FE_EDGE, C_FE_MUL_MAG8, C_FE_RAW_GE_P,
-    C_FE_SQRT_NONSQ, C_FE_INV_ZERO, C_FE_LIMIT_REJECT,
+    C_FE_SQRT_NONSQ, C_FE_INV_ZERO, C_FE_LIMIT_REJECT, C_FE_MUL_CHOSEN, C_FE_MUL_QUOT, C_FE_SQR_CHOSEN, C_FE_RESULT_WINDOW,
     C_SC_PROG, C_SC_NT, C_SC_EDGE, C_SC_LOAD_OVERFLOW, C_SC_ADD_OVERFLOW, C_SC_INV_ZERO, C_SC_SPLIT_LAMBDA, C_SC_MUL_SHIFT,
-    C_SC_CADD_BIT, C_SC_GETBITS_CROSS,
+    C_SC_CADD_BIT, C_SC_GETBITS_CROSS, C_SC_MUL_CHOSEN, C_SC_MUL_QUOT, C_SC_SQR_CHOSEN, C_SC_ADD_CHOSEN, C_SC_SHIFT_CHOSEN, C_SC_RESULT_WINDOW,
     C_MI_P, C_MI_N, C_MI_CUSTOM, C_MI_ZERO, C_MI_JACOBI_UNDECIDED, C_MI_NT,
     C_I128_PROG, C_I128_NT,
     C_H_SHA, C_H_HMAC, C_H_HMAC_LONGKEY, C_H_RFC6979, C_H_TAGGED, C_H_MIDSTATE, C_H_API_TAGGED, C_H_MULTIWRITE,
@@ -39,9 +39,9 @@ enum {
 };
 const char *const VF_CLASS_NAMES[] = {
     "fe_prog", "fe_nontrivial", "fe_operand_mag_gt1", "fe_operand_mag_ge16", "fe_raw_limbs", "fe_get_bounds", "fe_edge_const", "fe_mul_mag8",
-    "fe_raw_value_ge_p", "fe_sqrt_nonsquare", "fe_inv_zero", "fe_b32_limit_reject",
+    "fe_raw_value_ge_p", "fe_sqrt_nonsquare", "fe_inv_zero", "fe_b32_limit_reject", "fe_mul_chosen_result", "fe_mul_chosen_quotient", "fe_sqr_chosen_result", "fe_result_in_fold_window",
     "sc_prog", "sc_nontrivial", "sc_edge_const", "sc_load_overflow", "sc_add_overflow", "sc_inv_zero", "sc_split_lambda", "sc_mul_shift",
-    "sc_cadd_bit", "sc_getbits_cross_limb",
+    "sc_cadd_bit", "sc_getbits_cross_limb", "sc_mul_chosen_result", "sc_mul_chosen_quotient", "sc_sqr_chosen_result", "sc_add_chosen_result", "sc_mul_shift_chosen", "sc_result_in_fold_window",
     "modinv_p", "modinv_n", "modinv_custom_modulus", "modinv_zero", "jacobi_undecided", "modinv_nontrivial",
     "int128_prog", "int128_nontrivial",
     "h_sha256", "h_hmac", "h_hmac_key_gt64", "h_rfc6979", "h_init_tagged", "h_module_midstate", "h_api_tagged_sha256", "h_multi_write",
@@ -188,6 +188,39 @@ static int dec_u256(uint8_t out[32]) {
     return edge;
 }
 
+
+/* ------------------------------------------------------------------ chosen RESULTS (DESIGN 1.5 style)
+ * A carry of a reduction step may fire only when the RESULT lies in a thin window (e.g. within 2^256 - m of a multiple of 2^256), which
+ * neither random nor edge-valued OPERANDS ever produce.  So the result t is drawn from an edge set relative to the modulus m and its fold
+ * constant C = 2^256 - m, and the second operand is solved for with GMP.  Returns 1 when t lies in [C, 3C) (the window of the last fold). */
+static mpz_t T_t, T_u;
+static int tgt_result(mpz_t t, const mpz_t m, const mpz_t C) {
+    static const unsigned widths[6] = {64, 52, 32, 26, 128, 62};
+    unsigned k = U8(), d = U8(); uint8_t raw[32]; int dd, win;
+    switch (k % 14) {
+    case 0: mpz_set_ui(t, 0); break;
+    case 1: mpz_set_ui(t, 1); break;
+    case 2: mpz_set_ui(t, U16()); break;
+    case 3: mpz_sub_ui(t, m, 1); break;
+    case 4: mpz_sub_ui(t, m, 1 + U16()); break;
+    case 5: mpz_set(t, C); break;
+    case 6: mpz_mul_2exp(t, C, 1); break;
+    case 7: mpz_mul_ui(t, C, 3); break;
+    case 8: case 9: vf_take(&IN, raw, 32); rg_from_b32(t, raw); mpz_mod(t, t, C); mpz_addmul_ui(t, C, 1 + (k >> 4) % 2); break;     /* inside [C,2C) or [2C,3C) */
+    case 10: { unsigned w = widths[(k >> 4) % 6], j = 1 + (d >> 4) % (256 / w); mpz_set_ui(t, 1); mpz_mul_2exp(t, t, w * j > 255 ? 255 : w * j); break; }
+    case 11: mpz_mul_2exp(t, C, (k >> 4) * 4u); mpz_mod(t, t, m); break;                      /* shifted fold constant */
+    case 12: mpz_mul_ui(t, C, 1 + U16()); mpz_mod(t, t, m); break;                             /* small multiple of the fold constant */
+    default: dec_u256(raw); rg_from_b32(t, raw); break;
+    }
+    dd = (int)(d % 7) - 3;
+    if (dd >= 0) mpz_add_ui(t, t, (unsigned long)dd); else mpz_sub_ui(t, t, (unsigned long)(-dd));
+    mpz_mod(t, t, m);
+    if ((d & 0x80) && (k % 14) != 8 && (k % 14) != 9) { mpz_sub(t, m, t); mpz_mod(t, t, m); }
+    mpz_mul_ui(T_u, C, 3);
+    win = mpz_cmp(t, C) >= 0 && mpz_cmp(t, T_u) < 0;
+    return win;
+}
+
 /* ------------------------------------------------------------------ shared library-side state */
 static secp256k1_hash_ctx HC;
 static secp256k1_context *CTX = NULL;
@@ -229,7 +262,7 @@ static void arith_init(void) {
     rg_init();
     if ((r = rg_selftest()) != 0) { fprintf(stderr, "HARNESS: ref_gmp selftest failed (%d)\n", r); abort(); }
     if ((r = rs_selftest()) != 0) { fprintf(stderr, "HARNESS: ref_sha256 selftest failed (%d)\n", r); abort(); }
-    dec_init();
+    dec_init(); mpz_init(T_t); mpz_init(T_u);
     secp256k1_hash_ctx_init(&HC);
     CTX = secp256k1_context_create(SECP256K1_CONTEXT_NONE);
     secp256k1_context_set_illegal_callback(CTX, count_cb, NULL);
